@@ -12,8 +12,11 @@
                    positive definite, descent, monotone steps; box direction keeps x + d in the box for every input, box runs
                    feasible; Adam / Rprop: state consistency, step sizes positive and (unconstrained) in [minDelta, maxDelta],
                    iRprop+ takes back the sign-changed coordinates after an increase, member lists of L-BFGS / Adam / Rprop
-                   complete; CG: exact characterisation of its ascent directions, monotone on objectives convex along rays),
-                   axiom-free over Q
+                   complete; CG: exact characterisation of its ascent directions, monotone on objectives convex along rays;
+                   trust-region Newton: state consistency for every number type and every answer of the sub-problem solver,
+                   radius positive, what the acceptance rule guarantees, trustRegionCG as repaired stays inside the trust region
+                   and predicts no increase, whole runs never increase the value; regression witnesses of the repaired
+                   borderDistance defect), axiom-free over Q
   correspondence   extracted Q-model vs the real code compiled from /repo on generated dyadic quadratics: exact
                    equality while every floating-point operation of the objective was exact (harness: FE_INEXACT +
                    mantissa-length watch), 1e-9 relative afterwards.  Classes: harness subclass of
@@ -25,11 +28,17 @@
                    1e-10; Rprop also by the rational instance).  Witness inputs of the `_refuted` Examples run on the C++.  Single LineSearch::operator() calls (Dlinmin / WolfeCubic / Backtracking) on a
                    hooked hash-valued objective: the code runs first, its evaluation log becomes the oracle of the
                    extracted model, point / value / derivative and the number of trials must agree exactly.
+                   TrustRegionNewton (real class through the init-override shim of harness/c10_trn.cpp): every single step
+                   replayed by the extracted tr_step (double instance 1e-9 + summation-order spread; rational instance 1e-9,
+                   exactly where the harness saw no inexact floating-point operation in the whole step).
   spec monitors    every anchored class (SteepestDescent, Adam, CG, BFGS, L-BFGS, Rprop variants; line searches
                    Dlinmin/WolfeCubic/Backtracking; quadratics cond <= 1e4, Rosenbrock, box variants for L-BFGS and
                    Rprop): value == re-evaluated objective and derivative == re-evaluated gradient (bitwise), finite, feasible, line-search methods never
                    increase, minimiser of quadratics reached within the budget table, saved-at-k/restored-into-fresh
-                   instance: complete state equal and continued iterates bitwise equal.
+                   instance: complete state equal and continued iterates bitwise equal.  TrustRegionNewton after init and
+                   after EVERY step: value == objective at the point, gradient / Hessian == derivatives at the point, finite,
+                   never increases, trial point inside the trust region, minimiser of strictly convex quadratics (cond <= 1e4)
+                   within 200 steps; histories continue hundreds of steps past convergence, start at the minimiser, etc.
 """
 import os, sys, re, math, random
 from fractions import Fraction
@@ -994,7 +1003,10 @@ def main():
         "hooked objective of the single line-search calls: value/gradient = hash of the bit patterns of the evaluated point, implemented twice (harness/c10_opt.cpp struct Hooked, ocaml/c10_driver.ml hooked); points are 0 + t*d with d[i] = +-2^k, hence computed without rounding; the step length of an evaluation is read as x[j]/d[j]",
         "rounded comparisons of the library with an always-inexact product (c1*t*gtd, c2*gtd) are recomputed in Python in floating point and exactly; calls where the two disagree are skipped (counted under rounding-sensitive)",
         "stack-content dependence is exposed by running every single line-search call twice after filling 64 KiB of stack with 0xFF bytes resp. the double -1e300",
-        "exact rational linear solve in Python for the minimiser of the quadratics"]
+        "exact rational linear solve in Python for the minimiser of the quadratics",
+        "harness/c10_trn.cpp: objective with second derivatives (quadratic with Hessian A, Rosenbrock-type with its analytic Hessian; the evaluation order of value and gradient is the one of harness/c10_opt.cpp), evaluation log (trial point / value of the operator() call of a step), FE_INEXACT cleared before and tested after every single step() call (exact-regime detection for the whole step incl. BLAS calls and std::sqrt)",
+        "TrustRegionNewton replays: the double instance of the extracted tr_step gets the objective values the implementation's objective returned (trial value, evalDerivative result after acceptance) as oracles, so it checks trustRegionCG / borderDistance / errorDifference / the radius and acceptance rules, not the objective; tolerance 1e-9 max(1, |point|) + 16 x spread, spread = distance between the model's CG step and the model's CG step computed with all coordinates reversed (every sum accumulated in the opposite order); steps with spread > 1e-3 |step| or different CG exits of the two orders are counted as summation-order-sensitive and not compared; steps with |rho - threshold| <= 1e-6 or |step|^2 within 1e-6 radius^2 of 0.99 radius^2 are counted as threshold-rounding-sensitive and not compared",
+        "TrustRegionNewton rational instance: ocaml/c10_driver.ml converts the doubles exactly, evaluates 1/2 x'Ax - b'x in exact arithmetic and uses for std::sqrt the rounded double root of the (62-bit truncated) argument converted back exactly; sqex = 1 iff every root taken was exact; run for quadratics n <= 4 whose state numbers have at most 32 significant bits"]
     ck.assumptions = [
         "single line-search calls: n <= 4, directions with entries 0, +-1/2, +-1, +-2, 4, start 0 in the moving coordinates, t0 in {0, 1/64, 1/8, 1/4, 1/2, 1, 2}, objective = hash (values k/16 in [-8, 8), gradient entries k/8 in [-4, 4)) or -slope*t up to a threshold <= 1e7 and the hash beyond; 20% of the calls start from a value / derivative that is not the objective's",
         "harness/c10_findings.txt: regression inputs of the repaired wolfecubic defect (fix 1272c59f: linear objectives, all 25 expansions succeed) and the dlinmin backward-step demonstration are part of every run; REGRESSION_HISTORIES: BFGS / CG / L-BFGS with WolfeCubic on the linear objective -b'x",
@@ -1005,7 +1017,10 @@ def main():
         "fresh instance of save/restore = default-constructed object of the same class, init-ed on the same objective at another point and stepped twice (LineSearch keeps a pointer to the objective that cannot be archived)",
         "minimiser reached = max-norm error <= 1e-4 (1 + |x*|) within budget(): 200 steps; L-BFGS with history < n: 200 + cond/5; CG or short-history L-BFGS with the backtracking line search: 100*cond+200 (they degenerate to restarted steepest descent)",
         "box feasibility with the 1e-13 slack of BoxConstraintHandler::isFeasible is modelled in exact rationals (x + eps < l); the C++ rounds x + eps",
-        "TrustRegionNewton is abstract in this tree (cannot be instantiated): outside the check; an obligation watches that it stays so"]
+        "TrustRegionNewton is abstract in this tree (its two-argument init takes the objective by non-const reference and does not override the pure virtual init): the harness drives the real class (src/Algorithms/GradientDescent/TrustRegionNewton.cpp of the working tree) through a subclass that only adds `void init(ObjectiveFunctionType const& f, SearchPointType const& s){ TrustRegionNewton::init(f, s, 0.1); }` and read access to m_delta / m_derivatives",
+        "TrustRegionNewton histories (gen_trn): strictly convex quadratics n <= 6 of condition 1..1e8 (15% scaled by 2^+-10, 2^+-20), axis-parallel quadratics with power-of-two curvatures and integer minimiser (start at the minimiser / one exact Newton step away / on the half-integer grid / random), multiples 2^k of the identity with |gradient| the square of a dyadic number (exact regime), Rosenbrock-type n <= 4 with p in {1,10,100} (random start, optimum, region of negative curvature), indefinite / singular / linear quadratics (<= 28 steps); initial radius default 0.1 through the optimizer interface or 1e-3..1e3, minImprovementRatio 0.1 (30% of the Rosenbrock cases: 0.01..0.9); 2-8 single steps, blocks up to the budget of 200 steps, 1-3 single steps after it, then 10..700 more steps",
+        "TrustRegionNewton convergence predicate: max-norm error <= 1e-4 (1 + |x*|) after 200 steps, judged for condition <= 1.1e4 (the bounded condition of the property), counted beyond (coverage.trn_convergence)",
+        "TrustRegionNewton trust-region predicate: |trial point - point|_2 <= radius (1 + 1e-9) + sqrt(n) 2^-52 max|coordinate| (rounding of the addition point + step)"]
     for f_ in os.listdir(ck.replay_dir):
         if re.match(r"viol_\d+\.json$", f_) or f_.startswith("case_"):
             if not (ck.replay and os.path.abspath(ck.replay) == os.path.join(ck.replay_dir, f_)): os.remove(os.path.join(ck.replay_dir, f_))
@@ -1303,7 +1318,8 @@ def main():
     tcls = {}
     for c in trn_cases: k_ = "TRN/" + " ".join(c[0].split()[1:4:2]); tcls[k_] = tcls.get(k_, 0) + 1
     ck.cov["trn_convergence"] = dict(TRN_OBS)
-    ck.cov["trn_radius_underflow_histories"] = sum(1 for c, (o_, rc_, e_) in zip(trn_cases, tio) if o_ and "delta=" in o_[-1] and not fh(kv(o_[-1])["delta"]) > 0)
+    ck.cov["trn_histories_ending_with_radius_squared_underflow"] = sum(1 for c, (o_, rc_, e_) in zip(trn_cases, tio) if o_ and "delta=" in o_[-1] and fh(kv(o_[-1])["delta"]) ** 2 == 0.0)
+    ck.cov["trn_histories_ending_with_nonpositive_radius"] = sum(1 for c, (o_, rc_, e_) in zip(trn_cases, tio) if o_ and "delta=" in o_[-1] and not fh(kv(o_[-1])["delta"]) > 0)
 
     # ------------------------------------------------------------------ coverage
     steps = sum(steps_of(l) for c in cases for l in c[1:])
